@@ -376,7 +376,12 @@ impl InnerNodeManage {
                 Self::client_invalid_instance(naming_actor, node);
             }
         }
+        let old_range = self.current_range.clone();
         self.update_process_range();
+        if self.current_range != old_range {
+            //节点存活状态变化引起负责范围变化,同步给naming重新接管范围内的实例
+            self.refresh_process_range();
+        }
     }
 
     fn client_invalid_instance(
